@@ -575,6 +575,10 @@ func exec(op string) (res string) {
 		return a
 	case "big", "bigx":
 		return execBig(w)
+	case "midrt":
+		return execMidrt(w[1], w[2], atoi(w[3]))
+	case "rxbig":
+		return execRxbig(w[1], byte(atoi(w[2])), w[3], atoi(w[4]))
 	case "nego":
 		return nego(w[1], w[2])
 	case "rx", "negoh", "negos":
@@ -582,6 +586,9 @@ func exec(op string) (res string) {
 		return childExec(op)
 	case "senderr":
 		return execSenderr(w[1], w[2:])
+	case "negom":
+		// a real Session with reader goroutines: in the worker child like negos
+		return childExec(op)
 	case "held":
 		return execHeld(w[1], w[2:])
 	case "flight":
@@ -964,6 +971,16 @@ func main() {
 	}
 	for i := 0; i < nNegos; i++ {
 		op, cls := genNegos(r)
+		out.Case(op, exec(op), cls, true)
+	}
+
+	// 000a. negotiation per connection across the hosts of one session (hosts.go; worker child)
+	nNegom := 40 * mult
+	if nNegom > 240 {
+		nNegom = 240
+	}
+	for i := 0; i < nNegom; i++ {
+		op, cls := genNegom(r)
 		out.Case(op, exec(op), cls, true)
 	}
 
@@ -1397,6 +1414,10 @@ func main() {
 		}
 		out.Case(op, exec(op), cls, true)
 	}
+	// 6b''. body sizes between the shaped bodies and the 256 MiB frames (mid.go)
+	for _, oc := range genMid(r, tier) {
+		out.Case(oc[0], exec(oc[0]), oc[1], true)
+	}
 	// 6c. frames at the 256 MiB limit (the model answers through lengths only)
 	bigClasses := []string{"sender-too-big", "over"}
 	if tier == "thorough" {
@@ -1406,6 +1427,15 @@ func main() {
 	for _, c := range bigClasses {
 		op, ans, cls := genBig(r, c)
 		out.Case(op, ans, cls, true)
+	}
+	// 6d. compressed responses at the 256 MiB boundary through the real receive path of a connection
+	rxbigRun := []string{rxbigClasses[r.Intn(len(rxbigClasses))]}
+	if tier == "thorough" {
+		rxbigRun = append(append([]string{}, rxbigClasses...), "decodes-over-limit", "payload-over-limit", "payload-under-limit")
+	}
+	for _, c := range rxbigRun {
+		op, cls := genRxbig(r, c)
+		out.Case(op, exec(op), cls, true)
 	}
 	// 7. the destination lz4 Encode hands to the block encoder (model vs code; last: a tie, not an input)
 	for _, n := range threshLens(maxPow) {
